@@ -1,26 +1,27 @@
 #!/bin/bash
 # tools/trial.sh <patch.diff> <Cxx> [Cyy ...]
-# Applies a patch to /repo, checks that the pinned suite still passes, runs the
-# named quick checks without touching evidence/replay, and reverts the patch.
-# Prints one line per property: CAUGHT / MISSED / INCONCLUSIVE.
+# Applies a patch to a scratch worktree of /repo HEAD (never to /repo itself), checks that the pinned
+# suite still passes there, runs the named quick checks against that copy (go build -modfile, no
+# evidence / replay files written) and removes the copy. Prints CAUGHT / MISSED / INCONCLUSIVE per property.
 set -u
 ROOT=/verif
 . $ROOT/env.sh
 export VERIF_ROOT=$ROOT
-patch="$1"; shift
-cd /repo || exit 2
-if ! git diff --quiet; then echo "trial: /repo has uncommitted changes"; exit 2; fi
-git apply "$patch" || { echo "trial: patch does not apply"; exit 2; }
-trap 'git -C /repo checkout -- . ' EXIT
-if ! go build ./... >/dev/null 2>&1; then echo "trial: patched tree does not build"; exit 2; fi
-if go test -vet=off -count=1 ./... >/tmp/trial.suite.$$ 2>&1; then echo "suite: passes with the patch"; else echo "suite: FAILS with the patch"; grep -E '^(---|FAIL)' /tmp/trial.suite.$$ | head; fi
+patch="$(readlink -f "$1")"; shift
+wt=/tmp/trial-wt-$$
+git -C /repo worktree add -q --detach $wt HEAD || exit 2
+trap 'git -C /repo worktree remove --force '$wt' >/dev/null 2>&1; rm -rf '$wt' /tmp/trial-$$.mod /tmp/trial-$$.sum' EXIT
+(cd $wt && git apply "$patch") || { echo "trial: patch does not apply"; exit 2; }
+if ! (cd $wt && go build ./... >/dev/null 2>&1); then echo "trial: patched tree does not build"; exit 2; fi
+if (cd $wt && go test -vet=off -count=1 ./... >/tmp/trial.suite.$$ 2>&1); then echo "suite: passes with the patch"; else echo "suite: FAILS with the patch"; grep -E '^(---|FAIL)' /tmp/trial.suite.$$ | head; fi
 rm -f /tmp/trial.suite.$$
+sed "s#=> /repo#=> $wt#" $ROOT/harness/go.mod > /tmp/trial-$$.mod; : > /tmp/trial-$$.sum
 (cd $ROOT/harness && go build -o $ROOT/.work/bin/verifctl ./cmd/verifctl) || exit 2
 for p in "$@"; do
-  out=$($ROOT/.work/bin/verifctl -prop "$p" -tier "${TRIAL_TIER:-quick}" -no-evidence 2>&1); rc=$?
+  out=$($ROOT/.work/bin/verifctl -prop "$p" -tier "${TRIAL_TIER:-quick}" -no-evidence -modfile /tmp/trial-$$.mod 2>&1); rc=$?
   case $rc in
     0) echo "$p: MISSED" ;;
-    1) echo "$p: CAUGHT  $(echo "$out" | grep -c '^VIOLATION') signature(s): $(echo "$out" | grep '  signature:' | head -3 | tr '\n' ';')" ;;
+    1) echo "$p: CAUGHT  $(echo "$out" | grep -c '^VIOLATION') signature(s): $(echo "$out" | grep '  signature:' | head -3 | sed 's/  signature: //' | tr '\n' ';')" ;;
     *) echo "$p: INCONCLUSIVE rc=$rc $(echo "$out" | grep INCONCLUSIVE | head -2)" ;;
   esac
 done
